@@ -28,3 +28,7 @@ claim('C07', 'Hypothesis-generated curves and boundary-aimed s values in two con
       'About 830 (quick) / 21k (thorough) curves x ~7 s-values: each segment type and mixed paths at scales 1e-3..1e6, s at 0, L, interior, dyadic fractions, the last double below L and every cumulative segment length +-1 ulp; the returned parameter must lie in [0,1] and invert length within max(1e-12, 1e-9 L); the iteration-cap exception is the observable for non-termination.',
       'Trusts: length() itself (C06); the 1e-9*L reading of "floating-point resolution of L"; no-scipy configuration sampled thinly (each call costs ~1 s).',
       'DESIGN.md 2/C07')
+claim('C08', 'Hypothesis-generated segments and paths; containment and tightness of bbox() against independently computed critical points plus dense sampling',
+      'About 16k (quick) / 300k (thorough) segments incl. exactly and approximately degree-deficient cubics, symmetric and collinear polygons, arcs classified by the number of axis extremes they cross (0..4); every side of the box must contain the sampled curve and coincide with an independently computed extreme; Path.bbox must be the exact union.',
+      'Trusts: the harness critical-point solver (stable quadratic formula + Newton; atan2 critical angles) cross-checked by a 1025-point sample; tolerances in the evidence assumptions; KF02 recorded.',
+      'DESIGN.md 2/C08')
